@@ -243,4 +243,79 @@ def labelsCoherent (f : Frame) : Bool :=
           (Matching.isFp g.label == ((f.gt j).label == AP.fpLabel)) &&
           ((e.label == g.label) == ((f.est i).label == (f.gt j).label))
 
+/-! ## which label keys the pass/fail threshold (appended: the label choice made explicit)
+
+`get_positive_objects` skips a result without ground truth before any lookup and otherwise looks the threshold
+up under `object_result.ground_truth_object.semantic_label`; `get_negative_objects` looks it up under the ground
+truth's label if there is one, else under the ESTIMATE's label (`objects_filter.py`:
+`ground_truth_object.semantic_label if ground_truth_object is not None else estimated_object.semantic_label`).
+`ThrKey` names the choice for a PAIRED result; `detectFrameWith .gtLabel` is `detectFrame` (the code),
+`detectFrameWith .estLabel` the defective variant keyed on the estimate's label (seeded changes C03_B / C01_A). -/
+
+inductive ThrKey where
+  | gtLabel | estLabel
+  deriving DecidableEq, Repr
+
+/-- the label handed to `get_label_threshold` for the pair (estimate `i`, ground truth `j`) -/
+def keyLabelOf (k : ThrKey) (f : Frame) (i j : Nat) : AP.Label :=
+  match k with
+  | .gtLabel => (f.gt j).label
+  | .estLabel => (f.est i).label
+
+def pfThrOfWith (k : ThrKey) (f : Frame) (i j : Nat) : Except Err (Option Rat) :=
+  AP.getLabelThreshold (keyLabelOf k f i j) f.pfTargets f.pfThrs
+
+def pfThrWith (k : ThrKey) (f : Frame) (i j : Nat) : Option Rat :=
+  match pfThrOfWith k f i j with
+  | .ok t => t
+  | .error _ => none
+
+def toPFResWith (k : ThrKey) (f : Frame) (r : Matching.Res) : PassFail.Res :=
+  match r.2 with
+  | none =>
+    { est := (f.est r.1).id, estCrit := (f.est r.1).crit, gt := none, labelOk := false,
+      thr := none, score := none }
+  | some j =>
+    { est := (f.est r.1).id, estCrit := (f.est r.1).crit, gt := some (toGT f j),
+      labelOk := labelOk f r.1 j, thr := pfThrWith k f r.1 j, score := f.pfScore r.1 j }
+
+def pfFrameWith (k : ThrKey) (f : Frame) (rs : List Matching.Res) : PassFail.Frame :=
+  { results := rs.map (toPFResWith k f), gts := pfGts f }
+
+def pfThrErrorWith (k : ThrKey) (f : Frame) (rs : List Matching.Res) : Option Err :=
+  rs.findSome? fun r =>
+    match r.2 with
+    | none => none
+    | some j =>
+      match pfThrOfWith k f r.1 j with
+      | .error e => some e
+      | .ok _ => none
+
+/-- `detectFrame` with the threshold of a paired result keyed as `k` says -/
+def detectFrameWith (k : ThrKey) (f : Frame) : Except Err Out :=
+  match Matching.getObjectResults f.cfg f.scene with
+  | .error e => .error e
+  | .ok rs =>
+    match mapsFor f rs f.maps with
+    | .error e => .error e
+    | .ok maps =>
+      match pfThrErrorWith k f (critResults f rs) with
+      | some e => .error e
+      | none => .ok { matched := rs, pf := PassFail.evaluateFrame (pfFrameWith k f rs), maps := maps }
+
+/-- the lookups of `get_negative_objects`' first loop: under the ground truth's label if there is one, else
+under the estimate's label -/
+def negKeyLabel (f : Frame) (r : Matching.Res) : AP.Label :=
+  match r.2 with
+  | some j => (f.gt j).label
+  | none => (f.est r.1).label
+
+/-- the result as the first loop of `get_negative_objects` reads it: `thr` is looked up for EVERY result,
+under `negKeyLabel` -/
+def toPFResNeg (f : Frame) (r : Matching.Res) : PassFail.Res :=
+  { toPFRes f r with
+    thr := (match AP.getLabelThreshold (negKeyLabel f r) f.pfTargets f.pfThrs with
+      | .ok t => t
+      | .error _ => none) }
+
 end PEval.Pipeline
